@@ -143,9 +143,11 @@ theorem hostGood : HostGood hostObs Good WInv where
     · -- the globals object is not a good value
       exact absurd (show good (.obj "DictPile" []) = true from ho) (by decide)
     · split
-      · rename_i p hp
-        exact ⟨hw, hw.2.2 p (List.mem_of_find?_eq_some hp)⟩
-      · exact ⟨hw, Or.inr rfl⟩
+      · split
+        · rename_i p hp
+          exact ⟨hw, hw.2.2 p (List.mem_of_find?_eq_some hp)⟩
+        · exact ⟨hw, Or.inr rfl⟩
+      · exact resGood_fatal _ w hw _
     · exact resGood_fatal _ w hw _
   setattr := fun o a v w ho hv hw => by
     show ResGood Good WInv (fun _ => True) (setattr o a v w)
@@ -158,12 +160,14 @@ theorem hostGood : HostGood hostObs Good WInv where
     show ResGood Good WInv (fun _ => True) (setitem o k v w)
     unfold setitem
     split
-    · refine ⟨⟨hw.1, hw.2.1, ?_⟩, trivial⟩
-      intro p hp
-      simp only [List.mem_append, List.mem_filter, List.mem_singleton] at hp
-      rcases hp with hp | hp
-      · exact hw.2.2 p hp.1
-      · subst hp; exact hv
+    · split
+      · refine ⟨⟨hw.1, hw.2.1, ?_⟩, trivial⟩
+        intro p hp
+        simp only [List.mem_append, List.mem_filter, List.mem_singleton] at hp
+        rcases hp with hp | hp
+        · exact hw.2.2 p hp.1
+        · subst hp; exact hv
+      · exact resGood_fatal _ w hw _
     · exact resGood_fatal _ w hw _
   iter := fun v w hv hw => by
     show ResGood Good WInv (fun items => ∀ x ∈ items, Good x) (iter v w)
